@@ -7,7 +7,9 @@ From VBase Require Import MachInt.
 From VGen Require Import Mds12 Mds8.
 From VModel Require Import RescueConsts Rescue ByteHash.
 From VGen Require Import F64.
-From VProofs Require Import F64Red F64Ops RescueSponge RescueSbox RescueMds RescueRaw RescueExamples.
+From VGen Require F62.
+From VProofs Require F62Ops.
+From VProofs Require Import F64Red F64Ops RescueSponge RescueSbox RescueMds RescueRaw RescueRawSponge RescueExamples.
 Open Scope Z_scope.
 
 (* ===== (a) frequency-domain MDS fast path ============================================================================
@@ -156,12 +158,91 @@ Proof. exact jive_raw_permutation_spec. Qed.
 Print Assumptions C11_raw_permutation_spec_jive.
 Example C11_raw_permutation_nonvacuous : Forall repr (repeat (M - 1) 12) /\ Forall repr [0; 1; 2; 3; 4; 5; 6; 7].
 Proof. exact ex_raw_nonvacuous. Qed.
-(* raw_sponge_partial -- NOT a theorem (only the end-to-end correspondence and the falsifier): the same raw -> value
-   composition for (1) the absorption loops of hash / hash_elements / merge / merge_with_int (f64 `+=` on internal words,
-   `BaseElement::new` of lengths and chunks), and (2) Rp62_248 as a whole (f62 internal words live in [0, 2M), its
-   apply_mds is the plain `*r += m * s` loop).  Full statement, for H in {Rp64_256, Rp62_248, RpJive64_256}:
-     forall input, map as_int (H::hash_elements_raw input) = H_hash_elements (map as_int input)   (same for hash, merge,
-     merge_with_int), where H_* are the value-level models used in section (e). *)
+(* Rp62_248 at the raw level: f62 internal words are LAZY Montgomery words in [0, 2M) (repr62; two words per residue, C07_f62);
+   the plain-code permutation (cube, `*r += m * s` MDS loop, addition-chain inverse S-box, constants = new(c)) on such words
+   returns words in [0, 2M) whose residues (val62 = as_int, C07_f62_as_int) are the value-level permutation *)
+Theorem C11_raw_permutation_spec_rp62 : forall ws, length ws = 12%nat -> Forall F62Ops.repr62 ws ->
+  Forall F62Ops.repr62 (rp62_raw_permutation ws) /\
+  map F62Ops.val62 (rp62_raw_permutation ws) = rp62_permutation (map F62Ops.val62 ws).
+Proof. exact rp62_raw_permutation_spec. Qed.
+Print Assumptions C11_raw_permutation_spec_rp62.
+
+(* ===== (d') raw sponges: hash / hash_elements / merge / merge_with_int as executed on internal words ===================
+   R w v   :=  repr w   /\ val w = v      (f64: canonical Montgomery word w < M denoting the residue v)
+   R62 w v :=  repr62 w /\ val62 w = v    (f62: lazy Montgomery word w < 2M denoting the residue v)
+   RLL Rel :=  Forall2 (Forall2 Rel)       (lists of extension elements given by their coefficient lists)
+   The raw models (Model/Rescue.v, Section Generic instantiated with the rs2v-generated f64_* / f62_* operations and the raw
+   permutations) are related to the value-level models of section (e): outputs are valid internal words denoting exactly
+   the value-level digest.  Lengths are bounded by 2^64 (`len as u64`). *)
+Theorem C11_raw_hash_elements_spec_rp64 : forall xs vs, RLL R xs vs -> Z.of_nat (length (flatten xs)) < 2 ^ 64 ->
+  Forall2 R (rp64_raw_hash_elements xs) (rp64_hash_elements vs).
+Proof. exact rp64_raw_hash_elements_spec. Qed.
+Print Assumptions C11_raw_hash_elements_spec_rp64.
+Theorem C11_raw_hash_spec_rp64 : forall b, bytes b -> Z.of_nat (length b) < 2 ^ 64 ->
+  exists r v, rp64_raw_hash b = Some r /\ rp64_hash b = Some v /\ Forall2 R r v.
+Proof. exact rp64_raw_hash_spec. Qed.
+Print Assumptions C11_raw_hash_spec_rp64.
+Theorem C11_raw_merge_spec_rp64 : forall a va b vb, Forall2 R a va -> Forall2 R b vb ->
+  Forall2 R (rp64_raw_merge a b) (rp64_merge va vb).
+Proof. exact rp64_raw_merge_spec. Qed.
+Print Assumptions C11_raw_merge_spec_rp64.
+Theorem C11_raw_merge_with_int_spec_rp64 : forall seed vseed v, Forall2 R seed vseed -> 0 <= v < 2 ^ 64 ->
+  Forall2 R (rp64_raw_merge_with_int seed v) (rp64_merge_with_int vseed v).
+Proof. exact rp64_raw_merge_with_int_spec. Qed.
+Print Assumptions C11_raw_merge_with_int_spec_rp64.
+
+Theorem C11_raw_hash_elements_spec_jive : forall xs vs, RLL R xs vs ->
+  Forall2 R (jive_raw_hash_elements xs) (jive_hash_elements vs).
+Proof. exact jive_raw_hash_elements_spec. Qed.
+Print Assumptions C11_raw_hash_elements_spec_jive.
+Theorem C11_raw_hash_spec_jive : forall b, bytes b -> Z.of_nat (length b) < 2 ^ 64 ->
+  exists r v, jive_raw_hash b = Some r /\ jive_hash b = Some v /\ Forall2 R r v.
+Proof. exact jive_raw_hash_spec. Qed.
+Print Assumptions C11_raw_hash_spec_jive.
+Theorem C11_raw_merge_spec_jive : forall a va b vb, Forall2 R a va -> Forall2 R b vb -> length a = 4%nat -> length b = 4%nat ->
+  Forall2 R (jive_raw_merge a b) (jive_merge va vb).
+Proof. exact jive_raw_merge_spec. Qed.
+Print Assumptions C11_raw_merge_spec_jive.
+Theorem C11_raw_merge_with_int_spec_jive : forall seed vseed v, Forall2 R seed vseed -> 0 <= v < 2 ^ 64 ->
+  Forall2 R (jive_raw_merge_with_int seed v) (jive_merge_with_int vseed v).
+Proof. exact jive_raw_merge_with_int_spec. Qed.
+Print Assumptions C11_raw_merge_with_int_spec_jive.
+
+Theorem C11_raw_hash_elements_spec_rp62 : forall xs vs, RLL R62 xs vs -> Z.of_nat (length (flatten xs)) < 2 ^ 64 ->
+  Forall2 R62 (rp62_raw_hash_elements xs) (rp62_hash_elements vs).
+Proof. exact rp62_raw_hash_elements_spec. Qed.
+Print Assumptions C11_raw_hash_elements_spec_rp62.
+Theorem C11_raw_hash_spec_rp62 : forall b, bytes b -> Z.of_nat (length b) < 2 ^ 64 ->
+  exists r v, rp62_raw_hash b = Some r /\ rp62_hash b = Some v /\ Forall2 R62 r v.
+Proof. exact rp62_raw_hash_spec. Qed.
+Print Assumptions C11_raw_hash_spec_rp62.
+Theorem C11_raw_merge_spec_rp62 : forall a va b vb, Forall2 R62 a va -> Forall2 R62 b vb ->
+  Forall2 R62 (rp62_raw_merge a b) (rp62_merge va vb).
+Proof. exact rp62_raw_merge_spec. Qed.
+Print Assumptions C11_raw_merge_spec_rp62.
+Theorem C11_raw_merge_with_int_spec_rp62 : forall seed vseed v, Forall2 R62 seed vseed -> 0 <= v < 2 ^ 64 ->
+  Forall2 R62 (rp62_raw_merge_with_int seed v) (rp62_merge_with_int vseed v).
+Proof. exact rp62_raw_merge_with_int_spec. Qed.
+Print Assumptions C11_raw_merge_with_int_spec_rp62.
+
+(* what the digest BYTES are: Digest::as_bytes writes as_int() of each of the 4 words (and `==` compares residues).
+   f64: the words are canonical and as_int = the value-level digest; f62: the words are only in [0, 2M) -- the same
+   digest can have different internal words -- but as_int (which normalises) = the value-level digest, canonical. *)
+Theorem C11_digest_as_int_f64 : forall ws vs, Forall2 R ws vs -> map f64_as_int ws = vs /\ Forall (fun w => 0 <= w < M64) ws.
+Proof. exact R_as_int. Qed.
+Print Assumptions C11_digest_as_int_f64.
+Theorem C11_digest_as_int_f62 : forall ws vs, Forall2 R62 ws vs -> map F62.f62_as_int ws = vs /\ Forall (fun v => 0 <= v < M62) vs.
+Proof. exact R62_as_int. Qed.
+Print Assumptions C11_digest_as_int_f62.
+Example C11_raw_sponge_nonvacuous : R62 0 0 /\ R62 M62 0 /\ Forall2 R62 [1; M62 + 1] [F62Ops.val62 1; F62Ops.val62 1].
+Proof. exact ex_R62_nonvacuous. Qed.
+Example C11_raw_new_related : forall v, 0 <= v < 2 ^ 64 -> R (f64_new v) (v mod M64) /\ R62 (F62.f62_new v) (v mod M62).
+Proof. exact (fun v H => conj (R_new v H) (R62_new v H)). Qed.
+
+(* round constants: RpJive64_256's ARK1/ARK2 are re-derived on every run from the Rescue-Prime generation procedure
+   (SHAKE256("Rescue-XLIX(p,8,4,128)"), checks/c11.py obligation ark:jive-rederived-..., outside Coq); the ARK tables of Rp64_256
+   and Rp62_248 are not reproduced by that procedure: they are read from the source on every run and pinned only by the
+   known-answer Examples C11_hash_values / C11_hash_pins (digests of [0xAB; 70], replayed from the implementation). *)
 
 (* ===== (e) sponges and encodings ===================================================================================== *)
 (* hash_total: hashing a byte string never panics, whatever its length (0, multiples of 7, of the rate, long).
@@ -226,6 +307,20 @@ Theorem C11_jive_single_block : forall perm x0 x1, 0 <= x0 < M64 -> 0 <= x1 < M6
   digest_of (mkSponge 8 4 4 0 4 perm) (perm ([1; 0; 0; 0] ++ snd (jive_padded [x0; x1]))).
 Proof. exact jive_single_block. Qed.
 Print Assumptions C11_jive_single_block.
+
+(* ... and for EVERY length: hash_elements is the block recursion jive_run (full blocks of 4 added to the rate and permuted;
+   a final partial block added to the first r rate positions, the others overwritten with 1, 0.., then permuted), and the
+   padded last block is injective in its elements -- also across different lengths -- for a fixed incoming state *)
+Theorem C11_jive_hash_elements_blocks : forall p perm, (forall s, length s = 8%nat -> length (perm s) = 8%nat) -> forall xs,
+  hash_elements_jive p (mkSponge 8 4 4 0 4 perm) xs =
+  digest_of (mkSponge 8 4 4 0 4 perm) (jive_run p perm (length xs) (jive_init p (length xs)) xs).
+Proof. exact jive_hash_elements_blocks. Qed.
+Print Assumptions C11_jive_hash_elements_blocks.
+Theorem C11_jive_pad_last_inj : forall p, 1 < p -> forall st t t', length st = 8%nat ->
+  (1 <= length t <= 3)%nat -> (1 <= length t' <= 3)%nat ->
+  Forall (fun x => 0 <= x < p) t -> Forall (fun x => 0 <= x < p) t' -> pad_last p st t = pad_last p st t' -> t = t'.
+Proof. exact pad_last_inj. Qed.
+Print Assumptions C11_jive_pad_last_inj.
 
 (* merge_is_hash_concat: for the two sponge hashers (RpJive64_256::merge is the Jive compression, intentionally not a sponge) *)
 Theorem C11_merge_is_hash_concat_rp64 : forall a b, digest_ok M64 a -> digest_ok M64 b ->
